@@ -249,6 +249,9 @@ def gen_cases(ctx):
          {"op": "set", "args": ["plot_split"]}, {"op": "upgrade", "drop": ["plot_backend"]}],
     ):
         yield {"kind": "hist", "ops": ops, "corpus": "L2/L10"}
+    for v in STORED_VERSIONS:
+        yield {"kind": "hist", "ops": [{"op": "set", "args": ["plot_linewidth", "7.25"]},
+                                       {"op": "upgrade", "drop": ["plot_split", "plot_backend"], "stored": v}], "corpus": "stored-version"}
     for t in ["500", "-0.5", "1e3", "3.0", "--1", "1e", ".", "-.5", "10.", "0.1", "1e23", "-0", "+5", "", "-"]:
         yield {"kind": "tok", "tok": t}
     for _ in range(150 if not ctx.thorough else 1500):
@@ -265,7 +268,7 @@ def gen_cases(ctx):
                                                            ["plot_linewidth", "0", "plot_xyz_realistic", "false"],
                                                            ["tf_cache_lookup_frequency", "0", "plot_figsize", "[]"],
                                                            ["plot_fontscale", "2.5e0", "plot_reference_alpha", "1e-3"]])})
-                ops.append(r.choice([{"op": "upgrade", "drop": r.sample(list(D), 2)},
+                ops.append(r.choice([{"op": "upgrade", "drop": r.sample(list(D), 2), "stored": r.choice(STORED_VERSIONS)},
                                      {"op": "merge", "soft": True, "other": {"plot_seaborn_enabled": True, "plot_linewidth": 9,
                                                                            "plot_statistics": ["x"], "plot_figsize": [1, 1],
                                                                            "tf_cache_lookup_frequency": 5, "plot_xyz_realistic": True}}]))
@@ -279,8 +282,19 @@ def gen_cases(ctx):
             elif o in ("merge", "merge_cli"):
                 ops.append({"op": o, "soft": r.random() < 0.5, "other": rand_other(r, keys)})
             else:
-                ops.append({"op": "upgrade", "drop": r.sample(list(D), r.randint(0, 4))})
+                ops.append({"op": "upgrade", "drop": r.sample(list(D), r.randint(0, 4)), "stored": r.choice(STORED_VERSIONS)})
         yield {"kind": "hist", "ops": ops}
+    # unknown names that collide with attributes of dict / SettingsContainer, and near misses of real keys
+    with quiet():
+        from evo.tools.settings import SettingsContainer as _SC
+    attr_names = sorted(set(dir(dict)) | set(dir(_SC)) | set(vars(_SC)))
+    near = [k[:-1] for k in keys[:6]] + [k + "s" for k in keys[:6]] + [k.upper() for k in keys[:3]] + [k.replace("_", "-") for k in keys[:3]]
+    for name in (attr_names if ctx.thorough else
+                 ["copy", "items", "keys", "values", "update", "get", "pop", "clear", "locked", "from_json_file",
+                  "update_existing_keys", "setdefault", "__class__", "__dict__", "__len__", "fromkeys"] + r.sample(attr_names, 8)) + near:
+        if name in D:
+            continue
+        yield {"kind": "lock", "key": name, "value": r.choice([1, True, "x", 2.5])}
     for _ in range(20 if not ctx.thorough else 100):
         yield {"kind": "lock", "key": r.choice([r.choice(keys), r.choice(["brand_new_key", "plot_new", "Plot_split", "plot_split ", "x"])]),
                "value": r.choice([1, True, "x", 2.5])}
@@ -317,6 +331,9 @@ def rand_arglist(app, seed):
 
 
 OPT_TABLES = {}
+# stored assets_version strings of an outdated home: every string other than __version__ must trigger the upgrade
+STORED_VERSIONS = ["v1.9.0", "v1.5.0", "v1.4.2", "v9", "z", "v1.31.10", "v1.31.1 ", "v1.31.1\n", "v1.31.0", "v1.10.0", "v0", "",
+                   "V1.31.1", "v2.0.0", "1.31.1", "{}"]
 PRISTINE = [None]     # DEFAULT_SETTINGS_DICT as the file defines it (fresh execution of settings_template.py)
 
 
@@ -377,7 +394,7 @@ def evaluate(ctx, cases):
                             cut = {k: v for k, v in before.items() if k not in op["drop"]}
                             write_settings(st, cut)
                             info["before"] = cut
-                            Path(st.USER_ASSETS_VERSION_PATH).write_text("v0.0.1-old")
+                            Path(st.USER_ASSETS_VERSION_PATH).write_bytes(op.get("stored", "v0.0.1-old").encode())
                             line = f"C18 upgrade {enc_dict(cut)}"
                             st.update_if_outdated()
                 except SystemExit as e:
@@ -385,6 +402,9 @@ def evaluate(ctx, cases):
                 except Exception as e:  # noqa
                     info["exc"] = type(e).__name__ + ": " + str(e)[:100]
                 info["after"] = read_settings(st)
+                if op["op"] == "upgrade":
+                    import evo
+                    info["stamp"], info["version"] = Path(st.USER_ASSETS_VERSION_PATH).read_text(), evo.__version__
                 info["defaults_now"] = dict(mc.DEFAULT_SETTINGS_DICT)
                 jobs.append((case, info, line))
                 if not encodable(info["after"]):
@@ -619,6 +639,8 @@ def judge_hist(ctx, case, info, out, D):
             if after[k] != want or type(after[k]) is not type(want):
                 ctx.fail(sub, "merge-priority", f"{k}: {after[k]!r}, expected {want!r} (soft={op['soft']})")
     elif o == "upgrade":
+        if info.get("stamp") is not None and info["stamp"] != info.get("version"):
+            ctx.fail(sub, "upgrade-renews-the-version-stamp", f"assets_version is {info['stamp']!r} after the upgrade of a home stamped {op.get('stored')!r}")
         for k in D:
             if k not in after:
                 ctx.fail(sub, "upgrade-adds-missing-default-keys", f"{k} missing")
